@@ -321,7 +321,8 @@ Proof.
   replace (is_tws c) with false by (unfold is_tws; lia). replace (c =? 123) with false by lia.
   replace (c =? 125) with false by lia. replace (c =? 59) with false by lia. replace (c =? 34) with false by lia.
   replace (is_digit c || (c =? 45)) with false by (unfold is_digit; lia).
-  replace (is_symchar c) with false by (unfold is_symchar; lia).
+  replace (is_symchar c) with false
+    by (destruct (is_symchar c) eqn:Sy; [apply symchar_side in Sy; unfold sym_side, is_alpha in Sy; lia|reflexivity]).
   replace (c =? 91) with false by lia. replace (c =? 93) with false by lia. replace (c =? 40) with false by lia.
   replace (c =? 41) with false by lia. replace (128 <=? c) with false by lia.
   replace (is_wordchar c) with true by (unfold is_wordchar, is_alnum, is_alpha, is_digit; lia).
